@@ -9,8 +9,8 @@ import (
 	"time"
 
 	"perkeep.org/pkg/blob"
-	"perkeep.org/pkg/types/camtypes"
 	"perkeep.org/pkg/search"
+	"perkeep.org/pkg/types/camtypes"
 
 	"verif/engines/indexsim"
 	"verif/harness"
